@@ -16,6 +16,7 @@ RULE = (
     "columns, duplicate rows, any row order; a boolean sub-selection, a row permutation, the column-swapped screen, the arity-1 twin; the "
     "stacked/averaged helpers on 1..4 samples; NaN parameters must make the helpers raise; inf / NaN parameters of ONE treatment must leave every experiment that does not contain it bit-for-bit unchanged; for the interaction type the first sample's single-effect table is then updated in place (as the model does on new data) and the same screen and subset objects are predicted again. Non-trivial = screen has a control in each column "
     "somewhere and at least one true combination. distinct = distinct case JSON."
+    ' Between the two predictions of the predict / merge / predict history the collection helpers are called on the plate with a collection holding a NaN sample.'
 )
 ASSUMPTIONS = [
     "'logistic of the mean' is checked literally for the additive type; for the interaction type the documented relation exp(mean)*clip(product of single effects) clipped to [.01,.99] is used",
@@ -384,6 +385,17 @@ def check_case(case):
             pa, pb = pls[case["perm_seed"] % len(pls)], pls[(case["perm_seed"] // 3 + 1) % len(pls)]
             if pa is not pb and int(pa.plate_id) != int(pb.plate_id):
                 th0.predict_conditional_mean(pa), th0.predict_viability(pa), pa.size
+                # ... in between, the collection helpers are asked for this very plate with a collection that holds an unusable
+                # sample (NaN parameters: they raise part-way through); the plate is used again afterwards
+                bad_ = copy.deepcopy(case["thetas"][0])
+                bad_["W"][0][0] = float("nan")
+                bad_["precision"] = float("nan")
+                mixed_ = S.build_holder([case["thetas"][0], bad_] + list(case["thetas"][1:2]))
+                for f_ in (mm.predict_mean_all, mm.predict_viability_all, mm.predict_mean_avg, mm.predict_viability_avg, mm.predict_variance_all):
+                    try:
+                        f_(screen=pa, thetas=mixed_)
+                    except Exception:  # noqa: whatever a failing helper raises, the plate and the samples are used again below
+                        pass
                 pa.merge(pb)
                 now = np.asarray(pa.selection_vector)
                 got = np.asarray(th0.predict_conditional_mean(pa), dtype=float)
